@@ -1,1 +1,44 @@
-fn main() { unimplemented!() }
+//! C18 — io_uring wrapper (rusl): operations vs. direct system calls, and teardown.
+//!
+//! Phase dispatcher.  Phases living in this crate:
+//!   ops   (ops.rs, ops_raw.rs)  every batch over the operation alphabet through the real
+//!                               wrapper on the real kernel, differential against direct calls
+//!   drop  (ops_drop.rs)         `Drop for IoUring` observed through the syscall seam
+//!   ring  (ring.rs)             <- to be added by the ring-phase engineer: add `mod ring;`
+//!                               below and the two marked match arms
+
+use common::*;
+
+mod ops;
+mod ops_drop;
+mod ops_raw;
+// mod ring;            // <-- ring phase: uncomment / add
+
+fn main() {
+    let args = parse_args();
+    install_panic_hook();
+    if let Some(p) = &args.replay {
+        let v = read_replay(p);
+        let mut r = Report::new();
+        // a replay value names its phase; default "ops"
+        match v["phase"].as_str().unwrap_or("ops") {
+            "ops" => ops::replay(&v, &mut r),
+            "drop" => ops_drop::replay(&v, &mut r),
+            // "ring" => ring::replay(&v, &mut r),      // <-- ring phase
+            other => panic!("replay value of unknown phase {other}"),
+        }
+        for v in r.violations.values() {
+            println!("VIOLATED {}: {}", v.key, v.desc);
+        }
+        println!("{}", serde_json::to_string_pretty(&r.to_json()).unwrap());
+        std::process::exit(if r.violations.is_empty() { 0 } else { 1 });
+    }
+    let phase = args.phase.clone().unwrap_or_else(|| "ops".into());
+    let r = match phase.as_str() {
+        "ops" => ops::run(&args),
+        "drop" => ops_drop::run(&args),
+        // "ring" => ring::run(&args),                  // <-- ring phase
+        _ => panic!("unknown phase {phase} (ops | drop)"),
+    };
+    r.write(&args.out);
+}
